@@ -271,11 +271,20 @@ func controllerRoutes() []route {
 	return rs
 }
 
+var routeCache = map[string][]route{}
+
 func routesOf(side string) []route {
-	if side == "R" {
-		return replicaRoutes()
+	if r, ok := routeCache[side]; ok {
+		return r
 	}
-	return controllerRoutes()
+	var r []route
+	if side == "R" {
+		r = replicaRoutes()
+	} else {
+		r = controllerRoutes()
+	}
+	routeCache[side] = r
+	return r
 }
 
 // extra path templates: concrete paths below the pprof prefix and paths no route knows
@@ -631,6 +640,7 @@ type Req struct {
 	BodyLen int               `json:"body_len"`
 	raw     []byte
 	hasBody bool
+	outcome string
 }
 
 func (r *Req) Bytes() ([]byte, bool) { return r.raw, r.hasBody }
